@@ -1,26 +1,9 @@
 ------------------------------ MODULE FrameSMMC ------------------------------
-EXTENDS FrameSM, TLC
+EXTENDS FrameSMEvents, TLC
 CONSTANTS MaxFrames, MaxDepth
 VARIABLES st, ev
-F1 == [cols |-> <<"k", "a", "r">>, cell |-> [c \in {"k", "a", "r"} |-> IF c = "k" THEN <<0, NA, 0>> ELSE IF c = "a" THEN <<2, 0, NA>> ELSE <<0, 2, 4>>]]
-F2 == [cols |-> <<"k", "b", "rr">>, cell |-> [c \in {"k", "b", "rr"} |-> IF c = "k" THEN <<2, 0>> ELSE IF c = "b" THEN <<NA, 4>> ELSE <<0, 2>>]]
-Init == ev = [op |-> "init"] /\ st = AddFresh(AddFresh([bufs |-> <<>>, frames |-> <<>>], F1, <<>>), F2, <<>>)
-Events ==
-  LET H == DOMAIN st.frames IN
-       {[op |-> "filter", x |-> x, a |-> [op |-> "filter", mask |-> m]] : x \in H, m \in {<<TRUE, FALSE, TRUE>>, <<FALSE, TRUE>>}}
-  \cup {[op |-> o, x |-> x, a |-> [op |-> o, n |-> 1]] : x \in H, o \in {"head", "tail"}}
-  \cup {[op |-> "sort", x |-> x, a |-> [op |-> "sort", keys |-> <<"k">>, dirs |-> <<1>>]] : x \in H}
-  \cup {[op |-> "unique", x |-> x, a |-> [op |-> "unique", cols |-> <<"k">>]] : x \in H}
-  \cup {[op |-> "select", x |-> x, a |-> [op |-> "select", names |-> <<"k">>]] : x \in H}
-  \cup {[op |-> "rename", x |-> x, a |-> [op |-> "rename", pairs |-> <<<<"x", "k">>>>]] : x \in H}
-  \cup {[op |-> "modify", x |-> x, a |-> [op |-> "modify", name |-> "a", col |-> <<4>>]] : x \in H}
-  \cup {[op |-> o, x |-> x, o |-> y, a |-> [op |-> o]] : x \in H, y \in H, o \in {"rbind", "cbind", "update"}}
-  \cup {[op |-> o, x |-> x, o |-> y] : x \in H, y \in H, o \in {"left", "inner", "semi", "anti"}}
-  \cup {[op |-> o, x |-> x] : x \in H, o \in {"deepcopy", "copy"}}
-  \cup {[op |-> "setitem", x |-> x, name |-> nm, col |-> c] : x \in H, nm \in {"a", "y"}, c \in {<<4>>, <<0, 2>>, <<0, 2, 4>>}}
-  \cup {[op |-> "setcol", x |-> x, o |-> y, name |-> "y", oname |-> "k"] : x \in H, y \in H}
-  \cup {[op |-> o, x |-> x, name |-> "k"] : x \in H, o \in {"delitem", "pop"}}
-  \cup {[op |-> "poke", x |-> x, name |-> "k", i |-> 1, v |-> 4] : x \in H}
+Init == ev = [op |-> "init"] /\ st = InitSt
+Events == EventsOf(st)
 Next == /\ Len(st.frames) < MaxFrames
         /\ \E e \in Events, sh \in BOOLEAN :
               /\ EventOK(st, e) /\ ~MustFail(st, e) /\ (sh => e.op = "setcol")
